@@ -26,13 +26,20 @@ type Limits struct {
 
 type Loader struct {
 	mu     sync.RWMutex
-	cache  map[string]*ast.Journal
+	cache  map[string]cachedInclude
 	limits Limits
+}
+
+// cachedInclude is a parsed included file together with the syntax errors its parse reported,
+// so that a load served from the cache reports what a load from disk reports.
+type cachedInclude struct {
+	journal     *ast.Journal
+	parseErrors []LoadError
 }
 
 func NewLoader() *Loader {
 	return &Loader{
-		cache:  make(map[string]*ast.Journal),
+		cache:  make(map[string]cachedInclude),
 		limits: DefaultLimits(),
 	}
 }
@@ -226,9 +233,11 @@ func (l *Loader) loadSingleInclude(
 	if ok {
 		// The cache saves reading and parsing the file; its own includes are still followed
 		// (and the file is marked visited), exactly as for a file read from disk.
-		subResult, subErrors := l.resolveIncludes(includePath, cached, visited)
+		// The file's own syntax errors are reported again, as on the load that parsed it.
+		errors = append(errors, cached.parseErrors...)
+		subResult, subErrors := l.resolveIncludes(includePath, cached.journal, visited)
 		errors = append(errors, subErrors...)
-		result.Files[includePath] = cached
+		result.Files[includePath] = cached.journal
 		result.FileOrder = append(result.FileOrder, includePath)
 		maps.Copy(result.Files, subResult.Files)
 		result.FileOrder = append(result.FileOrder, subResult.FileOrder...)
@@ -271,8 +280,14 @@ func (l *Loader) loadSingleInclude(
 	errors = append(errors, subErrors...)
 
 	if subResult != nil && subResult.Primary != nil {
+		var parseErrors []LoadError
+		for _, e := range subErrors {
+			if e.Kind == ErrorParseError && e.Path == includePath {
+				parseErrors = append(parseErrors, e)
+			}
+		}
 		l.mu.Lock()
-		l.cache[includePath] = subResult.Primary
+		l.cache[includePath] = cachedInclude{journal: subResult.Primary, parseErrors: parseErrors}
 		l.mu.Unlock()
 		result.Files[includePath] = subResult.Primary
 		result.FileOrder = append(result.FileOrder, includePath)
@@ -328,7 +343,7 @@ func (l *Loader) expandGlob(basePath, pattern string) ([]string, error) {
 func (l *Loader) ClearCache() {
 	l.mu.Lock()
 	defer l.mu.Unlock()
-	l.cache = make(map[string]*ast.Journal)
+	l.cache = make(map[string]cachedInclude)
 }
 
 func (l *Loader) InvalidateFile(path string) {
